@@ -104,3 +104,54 @@ R.contract(
     raises_modifies=[],
     modifies=["self._has_multi_valued_arg", "self._hash_optional_arg", "items(self._arguments)"],
 )
+
+
+# ---- command options: name, short name and every alias are checked before anything is inserted -----------------------
+CO = "command_option"
+LA = CO + "._long_aliases"
+SA = CO + "._short_aliases"
+REJECT_COPT = " or ".join([
+    taken(CO + "._long_name"),
+    "any(%s for j in range(len(%s)))" % (taken(LA + "[j]"), LA),
+    taken(CO + "._short_name"),
+    "any(%s for j in range(len(%s)))" % (taken(SA + "[j]"), SA),
+])
+ACO = B + "add_command_option"
+D = "self._command_options"
+DS = "self._command_options_by_short_name"
+R.contract(
+    ACO,
+    params={CO: "ref CommandOption"},
+    returns="ref ArgsFormatBuilder",
+    requires=["len(%s._long_name) >= 2" % CO, "%s is not %s" % (D, DS)],
+    ensures=[
+        # accepted only when neither the names nor any alias is taken anywhere in the format or its bases ...
+        "not old(%s)" % REJECT_COPT,
+        # ... and then long name and long aliases, short name and short aliases all denote this command option
+        "%s._long_name in %s and %s[%s._long_name] is %s" % (CO, D, D, CO, CO),
+        "all(%s[j] in %s and %s[%s[j]] is %s for j in range(len(%s)))" % (LA, D, D, LA, CO, LA),
+        "implies(%s._short_name is not None and len(%s._short_name) > 0, %s._short_name in %s and %s[%s._short_name] is %s)"
+        % (CO, CO, CO, DS, DS, CO, CO),
+        "all(%s[j] in %s and %s[%s[j]] is %s for j in range(len(%s)))" % (SA, DS, DS, SA, CO, SA),
+        # nothing else in the tables changes
+        "same_except(%s, %s._long_name, seq(%s))" % (D, CO, LA),
+        "same_except(%s, %s._short_name, seq(%s))" % (DS, CO, SA),
+        "result is self",
+    ],
+    raises={"CannotAddOptionException": REJECT_COPT},
+    raises_modifies=[],   # a rejected addition leaves the builder unchanged
+    modifies=["items(%s)" % D, "items(%s)" % DS],
+)
+R.loop(ACO, 0, invariants=["all(not %s for j in range(_i))" % taken("long_aliases[j]")], modifies=[],
+       fingerprint="long_alias in long_aliases")
+R.loop(ACO, 1, invariants=["all(not %s for j in range(_i))" % taken("short_aliases[j]")], modifies=[],
+       fingerprint="short_alias in short_aliases")
+INS_LONG = ["long_name in %s and %s[long_name] is %s" % (D, D, CO),
+            "all(long_aliases[j] in %s and %s[long_aliases[j]] is %s for j in range(_i))" % (D, D, CO),
+            "same_except(%s, long_name, first(long_aliases, _i))" % D]
+R.loop(ACO, 2, invariants=INS_LONG, modifies=["items(%s)" % D], fingerprint="long_alias in long_aliases")
+INS_SHORT = ["all(long_aliases[j] in %s and %s[long_aliases[j]] is %s for j in range(len(long_aliases)))" % (D, D, CO),
+             "all(short_aliases[j] in %s and %s[short_aliases[j]] is %s for j in range(_i))" % (DS, DS, CO),
+             "same_except(%s, short_name, first(short_aliases, _i))" % DS,
+             "implies(short_name is not None and len(short_name) > 0, short_name in %s and %s[short_name] is %s)" % (DS, DS, CO)]
+R.loop(ACO, 3, invariants=INS_SHORT, modifies=["items(%s)" % DS], fingerprint="short_alias in short_aliases")
